@@ -131,6 +131,8 @@ struct ArcSt {
     /// handles in transit to a thread (given but not yet taken)
     drops: Vec<usize>,
     forgotten: usize,
+    /// events of the handle drops so far (release points)
+    drop_events: Vec<usize>,
 }
 
 #[derive(Clone, Debug)]
@@ -171,8 +173,8 @@ pub struct Machine<'p> {
     notify: Vec<NotifySt>,
     chan: Vec<ChanSt>,
     arc: Vec<ArcSt>,
-    track_live: Vec<bool>,
-    block_live: Vec<bool>,
+    track_live: Vec<Vec<bool>>,
+    block_live: Vec<Vec<bool>>,
     last_sc_fence: Option<usize>,
     cell_val: Vec<u64>,
     /// guided replay: a cell read returned something else than the latest write (only legal in
@@ -238,11 +240,11 @@ impl<'p> Machine<'p> {
                             held[o as usize] += 1;
                         }
                     }
-                    ArcSt { count: held.iter().sum(), payload_dropped: false, held, drops: vec![0; nt], forgotten: 0 }
+                    ArcSt { count: held.iter().sum(), payload_dropped: false, held, drops: vec![0; nt], forgotten: 0, drop_events: Vec::new() }
                 })
                 .collect(),
-            track_live: vec![false; p.n_track as usize],
-            block_live: vec![false; p.n_block as usize],
+            track_live: vec![vec![false; p.n_track as usize]; nt],
+            block_live: vec![vec![false; p.n_block as usize]; nt],
             last_sc_fence: None,
             cell_val: vec![0; p.n_cell as usize],
             cell_mismatch: false,
@@ -1012,41 +1014,64 @@ impl<'p> Machine<'p> {
                 }
             }
             Op::ArcDrop { r } | Op::ArcDecStrong { r } => {
-                self.push_ev(t, pc, EK::Sync, NOLOC, MO::Rlx);
-                let st = &mut self.arc[r as usize];
-                if st.held[t] > 0 {
+                if self.arc[r as usize].held[t] > 0 {
+                    if matches!(op, Op::ArcDrop { .. }) {
+                        // the holder reads the payload through its handle before dropping it
+                        self.arc_payload_access(t, pc, r, false);
+                    }
+                    let e = self.push_ev(t, pc, EK::Sync, NOLOC, MO::Rlx);
+                    let st = &mut self.arc[r as usize];
                     st.held[t] -= 1;
                     st.count -= 1;
+                    let prev: Vec<usize> = st.drop_events.clone();
+                    st.drop_events.push(e);
                     if st.count == 0 {
                         st.payload_dropped = true;
+                        // every earlier drop of a handle happens-before the final one
+                        for d in prev {
+                            self.g.extra.push((d, e));
+                        }
+                        // the payload's destructor runs on this thread
+                        self.arc_payload_access(t, pc, r, true);
                         res = Some(1);
                     } else {
                         res = Some(0);
                     }
+                } else {
+                    self.push_ev(t, pc, EK::Sync, NOLOC, MO::Rlx);
                 }
             }
             Op::ArcCount { r } => {
-                self.push_ev(t, pc, EK::Sync, NOLOC, MO::Rlx);
-                let st = &self.arc[r as usize];
-                if st.held[t] > 0 {
-                    res = Some(st.count as u64);
+                let e = self.push_ev(t, pc, EK::Sync, NOLOC, MO::Rlx);
+                if self.arc[r as usize].held[t] > 0 {
+                    res = Some(self.arc[r as usize].count as u64);
+                    self.arc_acquire(r, e, false);
                 }
             }
             Op::ArcGetMut { r } => {
-                self.push_ev(t, pc, EK::Sync, NOLOC, MO::Rlx);
-                let st = &self.arc[r as usize];
-                if st.held[t] > 0 {
-                    res = Some((st.count == 1) as u64);
+                let e = self.push_ev(t, pc, EK::Sync, NOLOC, MO::Rlx);
+                if self.arc[r as usize].held[t] > 0 {
+                    let unique = self.arc[r as usize].count == 1;
+                    res = Some(unique as u64);
+                    self.arc_acquire(r, e, unique);
+                    if unique {
+                        // exclusive access to the payload
+                        self.arc_payload_access(t, pc, r, true);
+                    }
                 }
             }
             Op::ArcTryUnwrap { r } => {
-                self.push_ev(t, pc, EK::Sync, NOLOC, MO::Rlx);
-                let st = &mut self.arc[r as usize];
-                if st.held[t] > 0 {
-                    if st.count == 1 {
+                let e = self.push_ev(t, pc, EK::Sync, NOLOC, MO::Rlx);
+                if self.arc[r as usize].held[t] > 0 {
+                    let unique = self.arc[r as usize].count == 1;
+                    self.arc_acquire(r, e, unique);
+                    if unique {
+                        let st = &mut self.arc[r as usize];
                         st.held[t] -= 1;
                         st.count = 0;
                         st.payload_dropped = true;
+                        // the payload is handed to this thread and dropped by it
+                        self.arc_payload_access(t, pc, r, true);
                         res = Some(1);
                     } else {
                         res = Some(0);
@@ -1070,10 +1095,10 @@ impl<'p> Machine<'p> {
                 }
             }
             Op::ArcGive { .. } => unimplemented!(),
-            Op::TrackNew { k } => self.track_live[k as usize] = true,
-            Op::TrackDrop { k } => self.track_live[k as usize] = false,
-            Op::Alloc { k } => self.block_live[k as usize] = true,
-            Op::Dealloc { k } => self.block_live[k as usize] = false,
+            Op::TrackNew { k } => self.track_live[t][k as usize] = true,
+            Op::TrackDrop { k } => self.track_live[t][k as usize] = false,
+            Op::Alloc { k } => self.block_live[t][k as usize] = true,
+            Op::Dealloc { k } => self.block_live[t][k as usize] = false,
             Op::TlsWith { .. } | Op::TlsNested { .. } | Op::LazyGet { .. } => unimplemented!(),
             Op::StopExploring | Op::Explore | Op::SkipBranch => {}
             Op::Panic { .. } | Op::Crash => {}
@@ -1093,6 +1118,26 @@ impl<'p> Machine<'p> {
             self.finish_op(t, pc, res);
         }
         Ok(completed)
+    }
+
+    /// non-atomic access to the payload of arc `r`
+    fn arc_payload_access(&mut self, t: usize, pc: usize, r: u8, write: bool) {
+        let e = self.push_ev(t, pc, EK::Sync, ARC_CELL_BASE + r as u16, MO::Rlx);
+        self.g.evs[e].na = true;
+        self.g.evs[e].na_write = write;
+    }
+
+    /// acquire from the handle drops so far. `definite`: the property guarantees the edge
+    /// (unique owner); otherwise it only belongs to the largest happens-before.
+    fn arc_acquire(&mut self, r: u8, e: usize, definite: bool) {
+        let prev: Vec<usize> = self.arc[r as usize].drop_events.clone();
+        for d in prev {
+            if definite || self.cfg.reading == Reading::Must {
+                self.g.extra.push((d, e));
+            } else {
+                self.extra_large.push((d, e));
+            }
+        }
     }
 
     fn finish_op(&mut self, t: usize, pc: usize, res: Option<u64>) {
@@ -1124,22 +1169,23 @@ impl<'p> Machine<'p> {
         Terminal::Done
     }
 
-    /// Leak state at quiescence (all threads finished)
+    /// Leak state at quiescence (all threads finished): the kinds of object still held
+    pub fn leaks(&self) -> Vec<String> {
+        let mut v = Vec::new();
+        if self.arc.iter().any(|st| st.count > 0) {
+            v.push("Arc".to_string());
+        }
+        if self.track_live.iter().flatten().any(|&b| b) || self.block_live.iter().flatten().any(|&b| b) {
+            v.push("Allocation".to_string());
+        }
+        if self.chan.iter().any(|st| !st.queue.is_empty() || st.dead_letters > 0) {
+            v.push("Messages".to_string());
+        }
+        v
+    }
+
     pub fn leak(&self) -> Option<String> {
-        for st in &self.arc {
-            if st.count > 0 {
-                return Some("Arc".into());
-            }
-        }
-        if self.track_live.iter().any(|&b| b) || self.block_live.iter().any(|&b| b) {
-            return Some("Allocation".into());
-        }
-        for st in &self.chan {
-            if !st.queue.is_empty() || st.dead_letters > 0 {
-                return Some("Messages".into());
-            }
-        }
-        None
+        self.leaks().into_iter().next()
     }
 
     /// Check for a data race now (used after each non-atomic access in walks).
